@@ -22,6 +22,7 @@ RULE = (
     "non-trivial = old word whose target sub-field is already non-zero (setters), non-empty cell (notes/patterns)"
     ' Also (added while the seeded-change rounds of DESIGN section 9 ran): Also: packed words (SFGS, SMII) changed one sub-field at a time on loaded objects and saved again; images arriving on patterns that were read / bulk-edited / resized / had cells moved or repeated.'
 )
+RULE += " Rounds 12-14 of DESIGN section 9 added: sub-field setters on cells whose other columns are set (every NOTECMD held as enum member / int / decoded); every kind of earlier use of a Pattern x images that are empty almost everywhere; Visualization objects obtained from a module and used after the module's word changed."
 ASSUMPTIONS = [
     "cell layout '<BBHHH' (note, vel, module, ctl, val) as documented; ctl = controller<<8 | effect, val = XX<<8 | YY",
     "visualization bit layout from docs/sunvox-file-format.rst; clamped fields: oscilloscope_size 0..255, bg_transparency/shadow_opacity 0..3",
